@@ -159,6 +159,8 @@ class Node:
     def _reverse_children(self):
         """Reverse children in-place"""
         self.__children.reverse()
+        for index, child in enumerate(self.__children):
+            child.__parent_index = index
 
 
 def is_tree_circular(root: Node) -> Union[None, Tuple[List[Node], int]]:
